@@ -10,6 +10,11 @@ from .common import norm, calls_in
 from . import c18
 
 
+# clauses that report a construct they found (a write, a computed value), not a pattern they
+# failed to find: the idiom guard of sa/idioms.py does not apply to them
+IDIOM_GUARD_EXEMPT = {"prefixes"}
+
+
 def check(ctx, rep, tier):
     rep.describe("label", "in both dataset builders the label is an equality between the "
                  "candidate's resolution and the gold value (== on value-comparing classes, or "
